@@ -5,6 +5,7 @@ UNITS = {
     "wire_codec": ["C04"],
     "zone_merge": ["C12"],
     "zone_lookup": ["C02"],
+    "cache": ["C05", "C15"],
 }
 # property -> clauses of the statement that no contract decides (reported in the evidence)
 UNDECIDED_CLAUSES = {
